@@ -18,7 +18,7 @@ pub const VOCAB: &[&str] = &[
     // literals
     "a", "é", "😀", " ", "\n", "-", ",", "0", "1", "9", "}", "]", "<", ">", "'", "=", "!", ":", "#", "P", "k", "x", "i",
     // operators
-    "(", ")", "[", "[^", "|", "*", "+", "?", "{", "{2}", "{1,2}", "{2,}", "{,2}", ".", "^", "$", "\\",
+    "(", ")", "[", "[^", "|", "*", "+", "?", "{", "{0}", "{1}", "{2}", "{0,0}", "{1,2}", "{2,}", "{,2}", ".", "^", "$", "\\",
     // group openers
     "(?:", "(?=", "(?!", "(?<=", "(?<!", "(?>", "(?<n>", "(?P<n>", "(?P=n)", "(?P>n)", "(?(", "(?(1)", "(?(<n>)", "(?i)", "(?x)", "(?-i:", "(?#", "(?",
     // escapes
